@@ -830,7 +830,7 @@ def stream_viewer_mpl(R, fixed):
     t0 = time.time()
     restorable = probe_restorable(all_kinds)
     R.note('viewer kinds that restore headlessly: %s' % restorable)
-    budget = R.pick(36.0, 260.0)
+    budget = R.pick(36.0, 200.0)
     batch = []
     i = 0
     while time.time() - t0 < budget and i < R.pick(80, 600):
@@ -1206,7 +1206,7 @@ class PickerGen(object):
             self.ncid += 1
             self.main[d].append((c, k))
             return ('daddmain', d, c, k)
-        if r < 0.70:
+        if r < 0.73:
             nums = [c for c, k in self.main[d] if k == 0]
             if not nums:
                 return ('pflag', rng.randrange(7), rng.random() < 0.5)
@@ -1220,6 +1220,9 @@ class PickerGen(object):
             if not pool:
                 return ('pflag', rng.randrange(7), rng.random() < 0.5)
             c = rng.choice(pool)
+            withdeps = sorted(set(dep for _, dep in self.der[d]))
+            if withdeps and rng.random() < 0.5:
+                c = rng.choice(withdeps)      # a component other derived components depend on: cascade of removals
             self.main[d] = [(a, k) for a, k in self.main[d] if a != c]
             gone = [a for a, dep in self.der[d] if a == c or dep == c]
             self.der[d] = [(a, dep) for a, dep in self.der[d] if a != c and dep != c]
@@ -1283,7 +1286,7 @@ def stream_picker(R):
     alphabet = [('pappend', 0), ('pappend', 1), ('premove', 0), ('pflag', 0, False), ('pflag', 2, False), ('pflag', 0, True), ('pflag', 6, True),
                 ('pflag', 3, True), ('pselect', 1), ('pselect', 2), ('dremove', 0, 0), ('dremove', 0, 1), ('daddmain', 0, 'new', 0),
                 ('dcremove', 0), ('delaybegin',), ('delayend',), ('psetmulti', [1, 0])]
-    depth = R.pick(3, 4)
+    depth = 3
     for hasdc in (True, False):
         for ln in range(1, depth + 1):
             for seq in itertools.product(alphabet, repeat=ln):
@@ -1322,7 +1325,7 @@ def stream_picker(R):
                         stream='picker_exhaustive', history_len=len(ops))
     nexh = len(batch)
     # (ii) random long histories
-    nrand = R.pick(800, 8000)
+    nrand = R.pick(1500, 20000)
     for i in range(nrand):
         rng = R.subrng('picker', i)
         spec = PICKER_SPECS[i % len(PICKER_SPECS)]
@@ -1589,7 +1592,7 @@ def stream_image_axes(R):
         orac, impl, line = impl_axes(n, world, ops)
         batch.append((n, world, ops, orac, impl, line))
         R.count(('axes', n, world, tuple(ops)), nontrivial=True, stream=stream, ndim=n, history_len=len(ops))
-    depth = R.pick({2: 3, 3: 2, 4: 2}, {2: 4, 3: 3, 4: 3})
+    depth = R.pick({2: 3, 3: 2, 4: 2}, {2: 4, 3: 3, 4: 2})
     for world in (False, True):
         for n in (2, 3, 4):
             alpha = [(p, v) for p in ('x', 'y', 'xw', 'yw') for v in range(n)]
@@ -1659,6 +1662,8 @@ def run(R):
 def replay(R, case):
     import warnings
     warnings.filterwarnings('ignore')
+    if not isinstance(case, dict):
+        return {'note': 'this replay file records a broken proof / correspondence without a failing input of the property; see its `broken` and `correspondence_cases` fields', 'violates': False}
     st = case.get('stream')
     out = {'case': case}
     if st in ('viewer_light', 'viewer_mpl'):
